@@ -644,7 +644,7 @@ theorem value_bytes (w : W) (bs : Bytes) (h : w.fits bs.length = true) (hn : bs.
       List.length_append, Nat.succ_ne_zero]
     have hmin : (setMajor (pushLen (pushState q ⟨0x44, stStart⟩) ((bs'.length : Int) + 1)) majorBytes).state.current.minor = stStart := by
       simp [hcur]
-    simp only [stepBytes, Int.natCast_add, Int.cast_ofNat_Int, hmin, beq_self_eq_true, if_true]
+    simp only [stepBytes, stepBytesGo, Int.natCast_add, Int.cast_ofNat_Int, hmin, beq_self_eq_true, if_true]
     rw [visit_good (by simp [hg1.nofail])]
     simp only [setMinor_len, addEvs_len, setMajor_len, pushLen_current]
     have hlen : (((bs'.length : Int) + 1).toNat) = bs'.length + 1 := by omega
